@@ -9,6 +9,9 @@ pairwise distinct words, so that a drop, a duplication and a swap all change the
 An output the strict reader rejects is counted in dist (`unreadable`) and reported as a violation only of C05, not here;
 a raising conversion is counted (`exceptions`), not reported (C02).
 
+Besides the generated documents every search evaluates ONE long document (`long_document()`, 10 003 paragraphs with one emphasised word
+each, deterministic): more than 10 000 inline nodes are stashed in a single conversion, the stash ids outgrow four digits.
+
 distinct / non-trivial: distinct documents whose output has an element other than `p` (some markup really acted)."""
 import markdown
 import htmlread
@@ -53,6 +56,19 @@ def evaluate(md, text):
     return 'ok', None, out
 
 
+def _word(i):
+    s = ''
+    while True:
+        s = 'abcdefghijklmnopqrstuvwxyz'[i % 26] + s; i //= 26
+        if not i: return 'w' + s
+
+
+def long_document(k=10003):
+    """ONE long document: more than 10 000 stashed inline nodes in a single conversion (the stash numbering is per document, its ids
+    outgrow four digits): k paragraphs of distinct words, one emphasised word each"""
+    return '\n\n'.join('plain %s and *%s*' % (_word(2 * i), _word(2 * i + 1)) for i in range(k))
+
+
 def search(driver, rng, n):
     md = markdown.Markdown()
     viol = []; seen = set(); samples = []
@@ -60,8 +76,9 @@ def search(driver, rng, n):
             'escapes': 0, 'lazy_or_nested_depth3': 0}
     cases = 0
     tags = ('h1', 'h2', 'h3', 'h4', 'h5', 'h6', 'ul', 'ol', 'li', 'blockquote', 'pre', 'code', 'hr', 'br', 'em', 'strong')
-    for i in range(MULT * n):
-        kind, text = D.gen(rng)
+    gen = lambda i: (('long-document', long_document()) if i < 0 else D.gen(rng))
+    for i in range(-1, MULT * n):           # i == -1: the long document (deterministic, not from rng)
+        kind, text = gen(i)
         status, why, out = evaluate(md, text)
         if status == 'skipped':
             dist['skipped_outside_domain'] += 1; continue
@@ -75,7 +92,7 @@ def search(driver, rng, n):
         dist['len_max'] = max(dist['len_max'], len(text)); dist['letters_max'] = max(dist['letters_max'], len(letters(text)))
         if '\\' in text: dist['escapes'] += 1
         if status == 'violation':
-            viol.append({'input': text, 'config': {'extensions': [], 'kind': kind}, 'observed': '%s; output %r' % (why, out[:400]),
+            viol.append({'input': text if kind != 'long-document' else text[:60] + ' ... (long_document())', 'config': {'extensions': [], 'kind': kind}, 'observed': '%s; output %r' % (why, out[:400]),
                          'required': 'letters of the text content of the output == letters of the source, in order', 'finding': None})
             continue
         hit = False
@@ -84,7 +101,7 @@ def search(driver, rng, n):
                 dist['tags'][t] = dist['tags'].get(t, 0) + 1; hit = True
         if hit: seen.add(text)
         if out.count('<blockquote>') + out.count('<ul>') + out.count('<ol>') >= 3: dist['lazy_or_nested_depth3'] += 1
-        if len(samples) < 5 and i % max(1, (MULT * n) // 5) == 0:
+        if len(samples) < 5 and i >= 0 and i % max(1, (MULT * n) // 5) == 0:
             samples.append({'kind': kind, 'input': text, 'output': out[:400]})
     viol.sort(key=lambda v: len(v['input']))
     return {'cases': cases, 'distinct': len(seen), 'violations': viol[:20], 'samples': samples, 'dist': dist}
@@ -96,4 +113,4 @@ def replay(witness):
 
 
 def replay_violation(v):
-    return replay({'text': v['input']})
+    return replay({'text': v['input'] if v.get('config', {}).get('kind') != 'long-document' else long_document()})
